@@ -154,6 +154,25 @@ func srvAnswersCorpus() []*CaseSpec {
 			one(b, c, op(b, A, "DEFAULT", nh(1)))
 			one(b, c, op(b, D, "DEFAULT", v4("1.0.0.0/8", 1)))
 		})))
+		// a wide cascade: twelve prefixes and their group held, all resolved by one next-hop (the
+		// response then carries more than two dozen results with FIB acknowledgements: the order
+		// of the two acknowledgements of one operation must survive whatever is done to the list)
+		out = append(out, srvCase(fmt.Sprintf("srv.answers/corpus/wide-cascade/%s", B(fib)), cfg, mk(fib, func(b *cutBuilder, c int) {
+			for i := 0; i < 12; i++ {
+				one(b, c, op(b, A, "DEFAULT", v4(fmt.Sprintf("10.%d.0.0/16", i), 1)))
+			}
+			one(b, c, op(b, A, "DEFAULT", nhg(1, 1)))
+			one(b, c, op(b, A, "DEFAULT", nh(1)))
+		})))
+		// the same, dependency-reversed, in one request
+		out = append(out, srvCase(fmt.Sprintf("srv.answers/corpus/wide-cascade-one-request/%s", B(fib)), cfg, mk(fib, func(b *cutBuilder, c int) {
+			ops := []*spb.AFTOperation{}
+			for i := 0; i < 12; i++ {
+				ops = append(ops, op(b, A, "VRF1", v4(fmt.Sprintf("10.%d.0.0/16", i), 1)))
+			}
+			ops = append(ops, op(b, A, "VRF1", nhg(1, 1)), op(b, A, "VRF1", nh(1)))
+			b.ops(c, &spb.ModifyRequest{Operation: ops})
+		})))
 	}
 	return out
 }
